@@ -47,6 +47,31 @@ unchanged tree they were observed to emit a POINT extent from a third reading ta
 (they pass the runtime's clock to `emit_core::emit`, which fills in a missing extent); the
 statement only speaks about the case where the clock provides its readings, so this is counted
 (`macro:result-completion-extent-with-missing-reading:point|none`) and left alone.
+
+(c) **the filter is asked ONCE, at the start** (`mod once`). Whether a span is enabled is decided when
+    it is started; an enabled, started span completes exactly once however it exits, so the
+    completion is not subject to the filter again - for `Ok` / `Err` returns through the
+    Result-aware completions (`ok_lvl` / `err_lvl` / `err`) as for plain, panic and cancellation
+    exits. The sites of (b) never met a filter that ACCEPTED the span at the start and would REJECT
+    the completed span's event if it were shown to it: here every Result-aware shape (Ok, early Ok,
+    early Err, `?`, tail Err, with and without an `err:` mapper, panic, cancellation; sync + async;
+    `#[emit::span]` and the level-named attributes) runs under
+      * `rt-min-level`: the runtime's filter is the real `emit::level::min_filter(m)`, m = every
+        level - the start is judged at the attribute's level (unleveled = the default, info), the
+        completion carries `lvl` = `ok_lvl` / `err_lvl` (e.g. min info, `ok_lvl: Debug`);
+      * `rt-budget`: a stateful runtime filter that says yes to its first k answers only (k = 0, 1, 2);
+      * `when-over-rt`: a call-site `when:` filter that enables what the runtime's own filter
+        rejects, and the reverse (C01: `when:` replaces the runtime filter);
+      * `when-min-level` / `when-budget`: the same two in the `when:` position over a runtime filter
+        that rejects everything;
+    on a generic `Runtime<..>` and on the type-erased runtime of an `AmbientSlot`. Plain and `guard:`
+    forms run under the same filters as controls (`guard:` cannot be combined with `ok_lvl` /
+    `err_lvl` / `err`: the macro rejects it). Expectation per invocation: enabled = what the deciding
+    filter (the `when:` filter if there is one, else the runtime's) answers to the span at its START
+    level; exactly one span event iff enabled (zero otherwise, also when the completion's level alone
+    would pass), with `lvl` / `err` per exit path, the span's name / properties / ids and a range
+    extent. Signatures `C05:macro:<n>-span-events-<c>-custom-completions:<enabled|disabled>:filter-<kind>:<runtime>:<form>:<exit>`.
+    The number of times each filter was asked is counted in the evidence, not judged.
 */
 
 #![cfg_attr(miri, feature(stmt_expr_attributes, proc_macro_hygiene))]
@@ -65,7 +90,7 @@ use emit::{
     filter,
     platform::thread_local_ctxt::ThreadLocalCtxt,
     props::ErasedProps,
-    runtime::Runtime,
+    runtime::{AmbientSlot, Runtime},
     span::{
         completion::{self, Completion, ErasedCompletion},
         Span, SpanGuard,
@@ -1637,6 +1662,622 @@ fn check_invocation(r: &mut Report, f: &Form, exit: Exit, en: bool, mode: ClockM
     }
 }
 
+// ===========================================================================
+// (c) the filter is asked once, at the start
+// ===========================================================================
+
+/// What a scripted filter does.
+#[derive(Clone, Copy, Debug, PartialEq, Eq, Hash)]
+enum Script {
+    /// the real `emit::level::min_filter(level)`
+    Min(&'static str),
+    Const(bool),
+    /// yes to the first k answers, no afterwards (state lives across the whole invocation)
+    Budget(u32),
+}
+
+#[derive(Clone, Debug)]
+struct ProbeCall {
+    answer: bool,
+    lvl: Option<String>,
+}
+
+struct Probe {
+    script: Script,
+    calls: Vec<ProbeCall>,
+}
+
+thread_local! {
+    /// the runtime's filter / the call-site `when:` filter of the invocation running on this thread
+    static RT_PROBE: RefCell<Probe> = const { RefCell::new(Probe { script: Script::Const(true), calls: Vec::new() }) };
+    static WHEN_PROBE: RefCell<Probe> = const { RefCell::new(Probe { script: Script::Const(true), calls: Vec::new() }) };
+    /// what the emitter of the (c) runtimes received on this thread
+    static O_EVENTS: RefCell<Vec<Captured>> = const { RefCell::new(Vec::new()) };
+}
+
+fn level_of(name: &str) -> emit::Level {
+    match name {
+        "debug" => emit::Level::Debug,
+        "info" => emit::Level::Info,
+        "warn" => emit::Level::Warn,
+        _ => emit::Level::Error,
+    }
+}
+
+fn rank(name: &str) -> u8 {
+    match name {
+        "debug" => 0,
+        "info" => 1,
+        "warn" => 2,
+        _ => 3,
+    }
+}
+
+/// A filter whose behaviour is scripted per thread (the runtimes of (c) are shared by all worker
+/// threads; every invocation sets the scripts of its own thread first). `TlFilter(true)` is the
+/// call-site `when:` filter, `TlFilter(false)` the runtime's.
+#[derive(Clone, Copy)]
+struct TlFilter(bool);
+
+impl emit::Filter for TlFilter {
+    fn matches<E: emit::event::ToEvent>(&self, evt: E) -> bool {
+        let evt = evt.to_event();
+        let key = if self.0 { &WHEN_PROBE } else { &RT_PROBE };
+        let (script, asked) = key.with(|p| {
+            let p = p.borrow();
+            (p.script, p.calls.len() as u32)
+        });
+        let answer = match script {
+            Script::Min(m) => emit::level::min_filter(level_of(m)).matches(&evt),
+            Script::Const(b) => b,
+            Script::Budget(k) => asked < k,
+        };
+        let lvl = evt.props().get("lvl").map(|v| v.to_string());
+        key.with(|p| p.borrow_mut().calls.push(ProbeCall { answer, lvl }));
+        answer
+    }
+}
+
+struct TlRecorder;
+
+impl emit::Emitter for TlRecorder {
+    fn emit<E: emit::event::ToEvent>(&self, evt: E) {
+        let evt = evt.to_event();
+        let cap = Captured::of(&evt);
+        O_EVENTS.with(|e| e.borrow_mut().push(cap));
+    }
+
+    fn blocking_flush(&self, _: std::time::Duration) -> bool {
+        true
+    }
+}
+
+type ORt = Runtime<TlRecorder, TlFilter, ThreadLocalCtxt, FakeClock, CountingRng>;
+
+fn o_clock() -> FakeClock {
+    let c = FakeClock::new(1_700_000_000_000_000_000);
+    c.set_step(1_000);
+    c
+}
+
+/// the generic runtime of (c)
+static O_RT: std::sync::LazyLock<ORt> =
+    std::sync::LazyLock::new(|| Runtime::build(TlRecorder, TlFilter(false), ThreadLocalCtxt::shared(), o_clock(), CountingRng::new()));
+
+/// the type-erased runtime of (c): the same components behind an `AmbientSlot`
+static O_SLOT: AmbientSlot = AmbientSlot::new();
+
+fn init_once_runtimes() {
+    std::sync::LazyLock::force(&O_RT);
+    let _ = O_SLOT.init(Runtime::build(TlRecorder, TlFilter(false), ThreadLocalCtxt::new(), o_clock(), CountingRng::starting_at(1 << 40)));
+    assert!(O_SLOT.is_enabled(), "the ambient slot of (c) is initialised");
+}
+
+#[derive(Clone, Copy, Debug, PartialEq, Eq, Hash)]
+enum RtSel {
+    Generic,
+    Slot,
+}
+
+impl RtSel {
+    fn name(self) -> &'static str {
+        match self {
+            RtSel::Generic => "generic-runtime",
+            RtSel::Slot => "ambient-slot",
+        }
+    }
+}
+
+// --- sites WITHOUT `when:` (the runtime's filter decides) ---------------------------------------
+// (generic over the runtime's components, so the same site runs on `Runtime<concrete..>` and on
+// the `AmbientRuntime` of a slot)
+
+#[emit::span(rt: *rt, ok_lvl: emit::Level::Debug, "o_sync_ok_debug {inv}", inv)]
+fn o_sync_ok_debug<E: emit::Emitter, F: emit::Filter, C: emit::Ctxt, T: emit::Clock, R: emit::Rng>(rt: &Runtime<E, F, C, T, R>, inv: u32, exit: Exit) -> Result<u32, MyErr> {
+    result_exit!(exit);
+    result_tail!(exit)
+}
+
+#[emit::span(rt: *rt, ok_lvl: "debug", "o_async_ok_debug {inv}", inv)]
+async fn o_async_ok_debug<E: emit::Emitter, F: emit::Filter, C: emit::Ctxt, T: emit::Clock, R: emit::Rng>(rt: &Runtime<E, F, C, T, R>, inv: u32, exit: Exit) -> Result<u32, MyErr> {
+    YieldNow(false).await;
+    result_exit!(exit);
+    YieldNow(false).await;
+    result_tail!(exit)
+}
+
+#[emit::span(rt: *rt, err_lvl: emit::Level::Debug, "o_sync_err_debug {inv}", inv)]
+fn o_sync_err_debug<E: emit::Emitter, F: emit::Filter, C: emit::Ctxt, T: emit::Clock, R: emit::Rng>(rt: &Runtime<E, F, C, T, R>, inv: u32, exit: Exit) -> Result<u32, MyErr> {
+    result_exit!(exit);
+    result_tail!(exit)
+}
+
+#[emit::span(rt: *rt, err_lvl: "debug", err: as_dyn, "o_async_err_debug_mapper {inv}", inv)]
+async fn o_async_err_debug_mapper<E: emit::Emitter, F: emit::Filter, C: emit::Ctxt, T: emit::Clock, R: emit::Rng>(rt: &Runtime<E, F, C, T, R>, inv: u32, exit: Exit) -> Result<u32, MyErr> {
+    YieldNow(false).await;
+    result_exit!(exit);
+    YieldNow(false).await;
+    result_tail!(exit)
+}
+
+#[emit::span(rt: *rt, ok_lvl: "debug", err_lvl: "debug", err: (|_| "mapped"), "o_sync_all_debug_mapper {inv}", inv)]
+fn o_sync_all_debug_mapper<E: emit::Emitter, F: emit::Filter, C: emit::Ctxt, T: emit::Clock, R: emit::Rng>(rt: &Runtime<E, F, C, T, R>, inv: u32, exit: Exit) -> Result<u32, MyErr> {
+    result_exit!(exit);
+    result_tail!(exit)
+}
+
+#[emit::span(rt: *rt, err: (|_| "mapped"), "o_async_mapper_only {inv}", inv)]
+async fn o_async_mapper_only<E: emit::Emitter, F: emit::Filter, C: emit::Ctxt, T: emit::Clock, R: emit::Rng>(rt: &Runtime<E, F, C, T, R>, inv: u32, exit: Exit) -> Result<u32, MyErr> {
+    YieldNow(false).await;
+    result_exit!(exit);
+    YieldNow(false).await;
+    result_tail!(exit)
+}
+
+#[emit::info_span(rt: *rt, ok_lvl: emit::Level::Debug, err_lvl: emit::Level::Debug, "o_sync_info_to_debug {inv}", inv)]
+fn o_sync_info_to_debug<E: emit::Emitter, F: emit::Filter, C: emit::Ctxt, T: emit::Clock, R: emit::Rng>(rt: &Runtime<E, F, C, T, R>, inv: u32, exit: Exit) -> Result<u32, MyErr> {
+    result_exit!(exit);
+    result_tail!(exit)
+}
+
+#[emit::info_span(rt: *rt, ok_lvl: "debug", err_lvl: "debug", err: as_dyn, "o_async_info_to_debug_mapper {inv}", inv)]
+async fn o_async_info_to_debug_mapper<E: emit::Emitter, F: emit::Filter, C: emit::Ctxt, T: emit::Clock, R: emit::Rng>(rt: &Runtime<E, F, C, T, R>, inv: u32, exit: Exit) -> Result<u32, MyErr> {
+    YieldNow(false).await;
+    result_exit!(exit);
+    YieldNow(false).await;
+    result_tail!(exit)
+}
+
+#[emit::warn_span(rt: *rt, ok_lvl: emit::Level::Info, err_lvl: emit::Level::Info, panic_lvl: emit::Level::Debug, "o_sync_warn_to_info {inv}", inv)]
+fn o_sync_warn_to_info<E: emit::Emitter, F: emit::Filter, C: emit::Ctxt, T: emit::Clock, R: emit::Rng>(rt: &Runtime<E, F, C, T, R>, inv: u32, exit: Exit) -> Result<u32, MyErr> {
+    result_exit!(exit);
+    result_tail!(exit)
+}
+
+#[emit::error_span(rt: *rt, ok_lvl: emit::Level::Debug, "o_async_error_ok_debug {inv}", inv)]
+async fn o_async_error_ok_debug<E: emit::Emitter, F: emit::Filter, C: emit::Ctxt, T: emit::Clock, R: emit::Rng>(rt: &Runtime<E, F, C, T, R>, inv: u32, exit: Exit) -> Result<u32, MyErr> {
+    YieldNow(false).await;
+    result_exit!(exit);
+    YieldNow(false).await;
+    result_tail!(exit)
+}
+
+/// the reverse direction: started at debug, completed at warn / error
+#[emit::debug_span(rt: *rt, ok_lvl: emit::Level::Warn, err_lvl: emit::Level::Error, "o_sync_debug_to_warn {inv}", inv)]
+fn o_sync_debug_to_warn<E: emit::Emitter, F: emit::Filter, C: emit::Ctxt, T: emit::Clock, R: emit::Rng>(rt: &Runtime<E, F, C, T, R>, inv: u32, exit: Exit) -> Result<u32, MyErr> {
+    result_exit!(exit);
+    result_tail!(exit)
+}
+
+#[emit::debug_span(rt: *rt, ok_lvl: "warn", err: (|_| "mapped"), "o_async_debug_to_warn_mapper {inv}", inv)]
+async fn o_async_debug_to_warn_mapper<E: emit::Emitter, F: emit::Filter, C: emit::Ctxt, T: emit::Clock, R: emit::Rng>(rt: &Runtime<E, F, C, T, R>, inv: u32, exit: Exit) -> Result<u32, MyErr> {
+    YieldNow(false).await;
+    result_exit!(exit);
+    YieldNow(false).await;
+    result_tail!(exit)
+}
+
+// controls: the same filters over completions that were never Result-aware
+
+#[emit::span(rt: *rt, "o_sync_plain_result {inv}", inv)]
+fn o_sync_plain_result<E: emit::Emitter, F: emit::Filter, C: emit::Ctxt, T: emit::Clock, R: emit::Rng>(rt: &Runtime<E, F, C, T, R>, inv: u32, exit: Exit) -> Result<u32, MyErr> {
+    result_exit!(exit);
+    result_tail!(exit)
+}
+
+#[emit::info_span(rt: *rt, "o_async_info_plain {inv}", inv)]
+async fn o_async_info_plain<E: emit::Emitter, F: emit::Filter, C: emit::Ctxt, T: emit::Clock, R: emit::Rng>(rt: &Runtime<E, F, C, T, R>, inv: u32, exit: Exit) -> u32 {
+    YieldNow(false).await;
+    plain_exit!(exit);
+    YieldNow(false).await;
+    0
+}
+
+#[emit::span(rt: *rt, guard: g, "o_sync_guard {inv}", inv)]
+fn o_sync_guard<E: emit::Emitter, F: emit::Filter, C: emit::Ctxt, T: emit::Clock, R: emit::Rng>(rt: &Runtime<E, F, C, T, R>, inv: u32, exit: Exit) -> u32 {
+    guard_body!(g, inv, exit);
+    0
+}
+
+#[emit::debug_span(rt: *rt, guard: g, "o_async_debug_guard {inv}", inv)]
+async fn o_async_debug_guard<E: emit::Emitter, F: emit::Filter, C: emit::Ctxt, T: emit::Clock, R: emit::Rng>(rt: &Runtime<E, F, C, T, R>, inv: u32, exit: Exit) -> u32 {
+    YieldNow(false).await;
+    guard_body!(g, inv, exit);
+    YieldNow(false).await;
+    0
+}
+
+// --- sites WITH a call-site `when:` filter (it decides; the runtime's filter is not consulted) ------
+
+#[emit::span(rt: *rt, when: TlFilter(true), ok_lvl: emit::Level::Debug, "w_sync_ok_debug {inv}", inv)]
+fn w_sync_ok_debug<E: emit::Emitter, F: emit::Filter, C: emit::Ctxt, T: emit::Clock, R: emit::Rng>(rt: &Runtime<E, F, C, T, R>, inv: u32, exit: Exit) -> Result<u32, MyErr> {
+    result_exit!(exit);
+    result_tail!(exit)
+}
+
+#[emit::span(rt: *rt, when: TlFilter(true), ok_lvl: "debug", err_lvl: "debug", "w_async_all_debug {inv}", inv)]
+async fn w_async_all_debug<E: emit::Emitter, F: emit::Filter, C: emit::Ctxt, T: emit::Clock, R: emit::Rng>(rt: &Runtime<E, F, C, T, R>, inv: u32, exit: Exit) -> Result<u32, MyErr> {
+    YieldNow(false).await;
+    result_exit!(exit);
+    YieldNow(false).await;
+    result_tail!(exit)
+}
+
+#[emit::span(rt: *rt, when: TlFilter(true), err_lvl: emit::Level::Debug, err: (|_| "mapped"), "w_sync_err_debug_mapper {inv}", inv)]
+fn w_sync_err_debug_mapper<E: emit::Emitter, F: emit::Filter, C: emit::Ctxt, T: emit::Clock, R: emit::Rng>(rt: &Runtime<E, F, C, T, R>, inv: u32, exit: Exit) -> Result<u32, MyErr> {
+    result_exit!(exit);
+    result_tail!(exit)
+}
+
+#[emit::info_span(rt: *rt, when: TlFilter(true), ok_lvl: emit::Level::Debug, err: as_dyn, "w_async_info_ok_debug_mapper {inv}", inv)]
+async fn w_async_info_ok_debug_mapper<E: emit::Emitter, F: emit::Filter, C: emit::Ctxt, T: emit::Clock, R: emit::Rng>(rt: &Runtime<E, F, C, T, R>, inv: u32, exit: Exit) -> Result<u32, MyErr> {
+    YieldNow(false).await;
+    result_exit!(exit);
+    YieldNow(false).await;
+    result_tail!(exit)
+}
+
+#[emit::warn_span(rt: *rt, when: TlFilter(true), ok_lvl: emit::Level::Info, err_lvl: emit::Level::Info, "w_sync_warn_to_info {inv}", inv)]
+fn w_sync_warn_to_info<E: emit::Emitter, F: emit::Filter, C: emit::Ctxt, T: emit::Clock, R: emit::Rng>(rt: &Runtime<E, F, C, T, R>, inv: u32, exit: Exit) -> Result<u32, MyErr> {
+    result_exit!(exit);
+    result_tail!(exit)
+}
+
+#[emit::debug_span(rt: *rt, when: TlFilter(true), ok_lvl: emit::Level::Warn, err_lvl: emit::Level::Error, "w_async_debug_to_warn {inv}", inv)]
+async fn w_async_debug_to_warn<E: emit::Emitter, F: emit::Filter, C: emit::Ctxt, T: emit::Clock, R: emit::Rng>(rt: &Runtime<E, F, C, T, R>, inv: u32, exit: Exit) -> Result<u32, MyErr> {
+    YieldNow(false).await;
+    result_exit!(exit);
+    YieldNow(false).await;
+    result_tail!(exit)
+}
+
+#[emit::span(rt: *rt, when: TlFilter(true), "w_sync_plain {inv}", inv)]
+fn w_sync_plain<E: emit::Emitter, F: emit::Filter, C: emit::Ctxt, T: emit::Clock, R: emit::Rng>(rt: &Runtime<E, F, C, T, R>, inv: u32, exit: Exit) -> u32 {
+    plain_exit!(exit);
+    0
+}
+
+#[emit::span(rt: *rt, when: TlFilter(true), guard: g, "w_async_guard {inv}", inv)]
+async fn w_async_guard<E: emit::Emitter, F: emit::Filter, C: emit::Ctxt, T: emit::Clock, R: emit::Rng>(rt: &Runtime<E, F, C, T, R>, inv: u32, exit: Exit) -> u32 {
+    YieldNow(false).await;
+    guard_body!(g, inv, exit);
+    YieldNow(false).await;
+    0
+}
+
+struct OForm {
+    name: &'static str,
+    /// has a call-site `when:` filter
+    when: bool,
+    run: fn(RtSel, u32, Exit) -> Result<(), String>,
+    exits: &'static [Exit],
+    default_lvl: Option<&'static str>,
+    panic_lvl: Option<&'static str>,
+    ok_lvl: Option<&'static str>,
+    err_lvl: Option<&'static str>,
+    result_aware: bool,
+    mapped_err: Option<&'static str>,
+}
+
+macro_rules! o_sync {
+    ($f:ident) => {
+        |sel, inv, exit| {
+            catch(|| match sel {
+                RtSel::Generic => {
+                    let _ = $f(&*O_RT, inv, exit);
+                }
+                RtSel::Slot => {
+                    let _ = $f(O_SLOT.get(), inv, exit);
+                }
+            })
+        }
+    };
+}
+
+macro_rules! o_async {
+    ($f:ident) => {
+        |sel, inv, exit| {
+            catch(|| match (sel, exit) {
+                (RtSel::Generic, Exit::Cancel(k)) => poll_then_drop($f(&*O_RT, inv, exit), k),
+                (RtSel::Slot, Exit::Cancel(k)) => poll_then_drop($f(O_SLOT.get(), inv, exit), k),
+                (RtSel::Generic, _) => {
+                    let _ = block_on($f(&*O_RT, inv, exit));
+                }
+                (RtSel::Slot, _) => {
+                    let _ = block_on($f(O_SLOT.get(), inv, exit));
+                }
+            })
+        }
+    };
+}
+
+fn oform(name: &'static str, run: fn(RtSel, u32, Exit) -> Result<(), String>, exits: &'static [Exit]) -> OForm {
+    OForm {
+        name,
+        when: name.starts_with("w_"),
+        run,
+        exits,
+        default_lvl: None,
+        panic_lvl: None,
+        ok_lvl: None,
+        err_lvl: None,
+        result_aware: true,
+        mapped_err: None,
+    }
+}
+
+fn once_forms() -> Vec<OForm> {
+    let (d, i, w, e) = (Some("debug"), Some("info"), Some("warn"), Some("error"));
+    vec![
+        OForm { ok_lvl: d, ..oform("o_sync_ok_debug", o_sync!(o_sync_ok_debug), RESULT_EXITS) },
+        OForm { ok_lvl: d, ..oform("o_async_ok_debug", o_async!(o_async_ok_debug), ASYNC_RESULT_EXITS) },
+        OForm { err_lvl: d, ..oform("o_sync_err_debug", o_sync!(o_sync_err_debug), RESULT_EXITS) },
+        OForm { err_lvl: d, ..oform("o_async_err_debug_mapper", o_async!(o_async_err_debug_mapper), ASYNC_RESULT_EXITS) },
+        OForm { ok_lvl: d, err_lvl: d, mapped_err: Some("mapped"), ..oform("o_sync_all_debug_mapper", o_sync!(o_sync_all_debug_mapper), RESULT_EXITS) },
+        OForm { mapped_err: Some("mapped"), ..oform("o_async_mapper_only", o_async!(o_async_mapper_only), ASYNC_RESULT_EXITS) },
+        OForm { default_lvl: i, ok_lvl: d, err_lvl: d, ..oform("o_sync_info_to_debug", o_sync!(o_sync_info_to_debug), RESULT_EXITS) },
+        OForm { default_lvl: i, ok_lvl: d, err_lvl: d, ..oform("o_async_info_to_debug_mapper", o_async!(o_async_info_to_debug_mapper), ASYNC_RESULT_EXITS) },
+        OForm { default_lvl: w, ok_lvl: i, err_lvl: i, panic_lvl: d, ..oform("o_sync_warn_to_info", o_sync!(o_sync_warn_to_info), RESULT_EXITS) },
+        OForm { default_lvl: e, ok_lvl: d, ..oform("o_async_error_ok_debug", o_async!(o_async_error_ok_debug), ASYNC_RESULT_EXITS) },
+        OForm { default_lvl: d, ok_lvl: w, err_lvl: e, ..oform("o_sync_debug_to_warn", o_sync!(o_sync_debug_to_warn), RESULT_EXITS) },
+        OForm { default_lvl: d, ok_lvl: w, mapped_err: Some("mapped"), ..oform("o_async_debug_to_warn_mapper", o_async!(o_async_debug_to_warn_mapper), ASYNC_RESULT_EXITS) },
+        OForm { result_aware: false, ..oform("o_sync_plain_result", o_sync!(o_sync_plain_result), RESULT_EXITS) },
+        OForm { default_lvl: i, result_aware: false, ..oform("o_async_info_plain", o_async!(o_async_info_plain), ASYNC_PLAIN_EXITS) },
+        OForm { result_aware: false, ..oform("o_sync_guard", o_sync!(o_sync_guard), GUARD_EXITS) },
+        OForm { default_lvl: d, result_aware: false, ..oform("o_async_debug_guard", o_async!(o_async_debug_guard), ASYNC_GUARD_EXITS) },
+        OForm { ok_lvl: d, ..oform("w_sync_ok_debug", o_sync!(w_sync_ok_debug), RESULT_EXITS) },
+        OForm { ok_lvl: d, err_lvl: d, ..oform("w_async_all_debug", o_async!(w_async_all_debug), ASYNC_RESULT_EXITS) },
+        OForm { err_lvl: d, mapped_err: Some("mapped"), ..oform("w_sync_err_debug_mapper", o_sync!(w_sync_err_debug_mapper), RESULT_EXITS) },
+        OForm { default_lvl: i, ok_lvl: d, ..oform("w_async_info_ok_debug_mapper", o_async!(w_async_info_ok_debug_mapper), ASYNC_RESULT_EXITS) },
+        OForm { default_lvl: w, ok_lvl: i, err_lvl: i, ..oform("w_sync_warn_to_info", o_sync!(w_sync_warn_to_info), RESULT_EXITS) },
+        OForm { default_lvl: d, ok_lvl: w, err_lvl: e, ..oform("w_async_debug_to_warn", o_async!(w_async_debug_to_warn), ASYNC_RESULT_EXITS) },
+        OForm { result_aware: false, ..oform("w_sync_plain", o_sync!(w_sync_plain), PLAIN_EXITS) },
+        OForm { result_aware: false, ..oform("w_async_guard", o_async!(w_async_guard), ASYNC_GUARD_EXITS) },
+    ]
+}
+
+/// The filters of one invocation: (kind label, runtime filter script, `when:` filter script).
+#[derive(Clone, Copy, Debug, PartialEq, Eq, Hash)]
+struct FilterSetting {
+    kind: &'static str,
+    rt: Script,
+    when: Script,
+}
+
+const LEVELS: [&str; 4] = ["debug", "info", "warn", "error"];
+
+fn filter_settings(when: bool) -> Vec<FilterSetting> {
+    let mut v = Vec::new();
+    if !when {
+        for m in LEVELS {
+            v.push(FilterSetting { kind: "rt-min-level", rt: Script::Min(m), when: Script::Const(false) });
+        }
+        for k in 0..3 {
+            v.push(FilterSetting { kind: "rt-budget", rt: Script::Budget(k), when: Script::Const(false) });
+        }
+    } else {
+        // `when:` enables what the runtime's own filter rejects (constant, min level, empty budget), and the reverse
+        v.push(FilterSetting { kind: "when-over-rt", rt: Script::Const(false), when: Script::Const(true) });
+        v.push(FilterSetting { kind: "when-over-rt", rt: Script::Min("error"), when: Script::Const(true) });
+        v.push(FilterSetting { kind: "when-over-rt", rt: Script::Budget(0), when: Script::Const(true) });
+        v.push(FilterSetting { kind: "when-over-rt", rt: Script::Const(true), when: Script::Const(false) });
+        for m in LEVELS {
+            v.push(FilterSetting { kind: "when-min-level", rt: Script::Const(false), when: Script::Min(m) });
+        }
+        for k in 0..3 {
+            v.push(FilterSetting { kind: "when-budget", rt: Script::Const(false), when: Script::Budget(k) });
+        }
+    }
+    v
+}
+
+/// What `script` answers to an event of level `lvl` (unleveled = the default level, info) when it
+/// has answered `asked` times before - written from the documentation of `MinLevelFilter`.
+fn script_answer(script: Script, lvl: Option<&str>, asked: u32) -> bool {
+    match script {
+        Script::Min(m) => rank(lvl.unwrap_or("info")) >= rank(m),
+        Script::Const(b) => b,
+        Script::Budget(k) => asked < k,
+    }
+}
+
+fn check_once(r: &mut Report, f: &OForm, exit: Exit, fs: FilterSetting, sel: RtSel, inv: u32) {
+    r.eval();
+    RT_PROBE.with(|p| *p.borrow_mut() = Probe { script: fs.rt, calls: Vec::new() });
+    WHEN_PROBE.with(|p| *p.borrow_mut() = Probe { script: fs.when, calls: Vec::new() });
+    O_EVENTS.with(|e| e.borrow_mut().clear());
+    CUSTOM.with(|c| c.borrow_mut().clear());
+    RETURNED.with(|c| c.borrow_mut().clear());
+    let outcome = (f.run)(sel, inv, exit);
+    let events = O_EVENTS.with(|e| std::mem::take(&mut *e.borrow_mut()));
+    let custom_calls = CUSTOM.with(|c| std::mem::take(&mut *c.borrow_mut()));
+    let returned = RETURNED.with(|c| std::mem::take(&mut *c.borrow_mut()));
+    let rt_calls = RT_PROBE.with(|p| std::mem::take(&mut p.borrow_mut().calls));
+    let when_calls = WHEN_PROBE.with(|p| std::mem::take(&mut p.borrow_mut().calls));
+    let show_calls = |c: &[ProbeCall]| c.iter().map(|c| json!({"answer": c.answer, "lvl_shown": c.lvl})).collect::<Vec<_>>();
+    let case = || {
+        json!({"part": "macro-filter-once", "form": f.name, "exit": format!("{:?}", exit), "runtime": sel.name(),
+               "filter_kind": fs.kind, "runtime_filter": format!("{:?}", fs.rt), "when_filter": if f.when { format!("{:?}", fs.when) } else { "none".to_string() },
+               "runtime_filter_calls": show_calls(&rt_calls), "when_filter_calls": show_calls(&when_calls),
+               "invocation": inv, "events": events.iter().map(|e| e.to_json()).collect::<Vec<_>>()})
+    };
+    let sig_tail = format!("filter-{}:{}:{}:{:?}", fs.kind, sel.name(), f.name, exit);
+
+    // enabled = the deciding filter's answer to the span at its START level (first answer)
+    let deciding = if f.when { fs.when } else { fs.rt };
+    let en = script_answer(deciding, f.default_lvl, 0);
+    r.observe(&format!("filter-once:invocations:{}", if en { "enabled" } else { "disabled" }), 1);
+    r.observe(&format!("filter-once:kind:{}", fs.kind), 1);
+    r.observe(&format!("filter-once:runtime:{}", sel.name()), 1);
+    r.observe("filter-once:span-events", events.len() as u64);
+    r.observe("filter-once:deciding-filter-answers", if f.when { when_calls.len() } else { rt_calls.len() } as u64);
+    if f.when {
+        r.observe("filter-once:runtime-filter-asked-although-when-is-set", rt_calls.len() as u64);
+    }
+    r.nontrivial(&("macro-filter-once", f.name, format!("{:?}", exit), fs, sel));
+
+    let panicked = outcome.is_err();
+    if panicked != (exit == Exit::Panic) {
+        r.violation(&format!("C05:macro:unexpected-panic:{}", sig_tail), &format!("invocation outcome {:?}", outcome), case());
+        return;
+    }
+    let cancelled = match exit {
+        Exit::Cancel(_) => !FINISHED.with(|c| c.get()),
+        _ => false,
+    };
+    let started = !matches!(exit, Exit::Cancel(0));
+
+    // expected lvl / err of the one span event
+    let is_err_exit = matches!(exit, Exit::EarlyErr | Exit::Question | Exit::TailErr);
+    let (want_lvl, want_err): (Option<&str>, Option<String>) = if exit == Exit::Panic {
+        (Some(f.panic_lvl.unwrap_or("error")), Some("panicked".to_string()))
+    } else if cancelled {
+        (f.default_lvl, None)
+    } else if f.result_aware && is_err_exit {
+        let text = match exit {
+            Exit::EarlyErr => "my error: early",
+            Exit::Question => "my error: question",
+            _ => "my error: tail",
+        };
+        (Some(f.err_lvl.or(f.default_lvl).unwrap_or("error")), Some(f.mapped_err.map(|m| m.to_string()).unwrap_or_else(|| text.to_string())))
+    } else if f.result_aware {
+        (f.ok_lvl.or(f.default_lvl), None)
+    } else {
+        (f.default_lvl, None)
+    };
+
+    // would the completed span's event be rejected if a filter were asked again? (the class this part exists for)
+    let again_deciding = !script_answer(deciding, want_lvl, 1);
+    let again_rt = !script_answer(fs.rt, want_lvl, if f.when { 0 } else { 1 });
+    if en && started {
+        if again_deciding || again_rt {
+            r.observe("filter-once:enabled-at-start-and-a-second-ask-would-reject-the-completion", 1);
+            r.observe(
+                &format!(
+                    "filter-once:second-ask-would-reject:{}:{}",
+                    fs.kind,
+                    if exit == Exit::Panic { "panic" } else if cancelled { "cancelled" } else if is_err_exit && f.result_aware { "err-completion" } else if f.result_aware { "ok-completion" } else { "default-completion" }
+                ),
+                1,
+            );
+        }
+    } else if started && script_answer(deciding, want_lvl, 0) {
+        r.observe("filter-once:rejected-at-start-although-the-completion-alone-would-pass", 1);
+    }
+
+    let to_custom = en && started && !cancelled && matches!(exit, Exit::GCompleteWith | Exit::GWithCompletion);
+    let want_events = if en && started && !to_custom { 1 } else { 0 };
+    let want_custom = if to_custom { 1 } else { 0 };
+    if events.len() != want_events || custom_calls.len() != want_custom {
+        r.violation(
+            &format!(
+                "C05:macro:{}-span-events-{}-custom-completions:{}:{}",
+                events.len().min(2),
+                custom_calls.len().min(2),
+                if en { "enabled" } else { "disabled" },
+                sig_tail
+            ),
+            &format!(
+                "the deciding filter ({}) answered {} to the span at its start level {:?}: expected {} span event(s) and {} custom completion call(s), got {} and {} \
+                 (the completed span's event has lvl {:?}; the runtime filter was asked {} time(s), the when: filter {} time(s))",
+                if f.when { "when:" } else { "the runtime's" },
+                en,
+                f.default_lvl,
+                want_events,
+                want_custom,
+                events.len(),
+                custom_calls.len(),
+                want_lvl,
+                rt_calls.len(),
+                when_calls.len()
+            ),
+            case(),
+        );
+    }
+    for (_, ret) in &returned {
+        r.observe("complete-return-values", 1);
+        if *ret != en {
+            r.violation(
+                &format!("C05:macro:complete-returned-{}:{}:{}", ret, if en { "enabled" } else { "disabled" }, sig_tail),
+                &format!("guard.complete*/() returned {} but the span {}", ret, if en { "completed" } else { "was disabled" }),
+                case(),
+            );
+        }
+    }
+    if want_events != 1 {
+        return;
+    }
+    let Some(e) = events.first() else { return };
+    r.observe("filter-once:span-events-judged", 1);
+    let got_lvl = e.get("lvl");
+    let got_err = e.get("err").map(|s| s.to_string());
+    if got_lvl != want_lvl {
+        r.violation(&format!("C05:macro:wrong-lvl:{}", sig_tail), &format!("lvl {:?}, the exit path calls for {:?}", got_lvl, want_lvl), case());
+    }
+    if got_err != want_err {
+        r.violation(&format!("C05:macro:wrong-err:{}", sig_tail), &format!("err {:?}, the exit path calls for {:?}", got_err, want_err), case());
+    }
+    let want_name = if exit == Exit::GRename { "renamed".to_string() } else { format!("{} {{inv}}", f.name) };
+    let mut wrong = Vec::new();
+    if e.get("evt_kind") != Some("span") {
+        wrong.push(format!("evt_kind={:?}", e.get("evt_kind")));
+    }
+    if e.get("span_name") != Some(want_name.as_str()) {
+        wrong.push(format!("span_name={:?} (expected {:?})", e.get("span_name"), want_name));
+    }
+    if e.get("inv") != Some(inv.to_string().as_str()) {
+        wrong.push(format!("inv={:?} (expected {})", e.get("inv"), inv));
+    }
+    // (the clock is shared by all worker threads and steps on every reading: a range, start before end)
+    if !matches!(e.extent, Some((Some(s), end)) if s < end) {
+        wrong.push(format!("extent={:?} (expected a range: reading at start .. reading at completion)", e.extent));
+    }
+    if e.get("trace_id").map(|t| t.len()) != Some(32) || e.get("span_id").map(|t| t.len()) != Some(16) {
+        wrong.push(format!("trace_id={:?} span_id={:?}", e.get("trace_id"), e.get("span_id")));
+    }
+    if !wrong.is_empty() {
+        r.violation(&format!("C05:macro:span-event-content:{}", sig_tail), &wrong.join("; "), case());
+    }
+    if r.wants_sample() && (again_deciding || again_rt) && inv % 97 == 0 {
+        r.sample(|| case());
+    }
+}
+
+/// every (form, exit, filter setting, runtime) of part (c)
+fn once_jobs(all: &[OForm]) -> Vec<(usize, Exit, FilterSetting, RtSel)> {
+    let mut jobs = Vec::new();
+    for (fi, f) in all.iter().enumerate() {
+        for e in f.exits {
+            for fs in filter_settings(f.when) {
+                for sel in [RtSel::Generic, RtSel::Slot] {
+                    jobs.push((fi, *e, fs, sel));
+                }
+            }
+        }
+    }
+    jobs
+}
+
 fn main() {
     let args = Args::parse();
     let mut r = Report::new(
@@ -1646,9 +2287,27 @@ fn main() {
          non-trivial = distinct (filter outcome, in/out of frame, operation-kind sequence, clock-movement sequence) tuples with at least one builder operation, plus distinct (form, exit path, enabled) triples",
     );
 
+    init_once_runtimes();
+
     if let Some(path) = &args.replay {
         let case = load_replay(path);
-        if case.get("part").and_then(|v| v.as_str()) == Some("macro") {
+        if case.get("part").and_then(|v| v.as_str()) == Some("macro-filter-once") {
+            let text = |k: &str| case.get(k).and_then(|v| v.as_str()).unwrap_or("").to_string();
+            let all = once_forms();
+            for (fi, exit, fs, sel) in once_jobs(&all) {
+                let f = &all[fi];
+                if f.name == text("form")
+                    && format!("{:?}", exit) == text("exit")
+                    && sel.name() == text("runtime")
+                    && fs.kind == text("filter_kind")
+                    && format!("{:?}", fs.rt) == text("runtime_filter")
+                    && (!f.when || format!("{:?}", fs.when) == text("when_filter"))
+                {
+                    check_once(&mut r, f, exit, fs, sel, 1);
+                    check_once(&mut r, f, exit, fs, sel, 2);
+                }
+            }
+        } else if case.get("part").and_then(|v| v.as_str()) == Some("macro") {
             let name = case.get("form").and_then(|v| v.as_str()).unwrap_or("");
             let exit = case.get("exit").and_then(|v| v.as_str()).unwrap_or("");
             let en = case.get("enabled").and_then(|v| v.as_bool()).unwrap_or(true);
@@ -1714,6 +2373,21 @@ fn main() {
     });
     r.set("macro_forms", json!(all.iter().map(|f| f.name).collect::<Vec<_>>()));
     r.set("macro_sites_exit_paths", json!(jobs.len()));
+
+    // (c) the filter is asked once: every Result-aware form x exit path x filter setting x runtime
+    let oall = once_forms();
+    let ojobs = once_jobs(&oall);
+    let orounds = if cfg!(miri) { 1 } else { args.n(3, 30) };
+    par_cases(&mut r, &args, ojobs.len() as u64 * orounds, |i, r| {
+        // under Miri a sixteenth of the sites per run, rotating with the seed
+        if cfg!(miri) && (i + seed) % 16 != 0 {
+            return;
+        }
+        let (fi, exit, fs, sel) = ojobs[(i % ojobs.len() as u64) as usize];
+        check_once(r, &oall[fi], exit, fs, sel, i as u32 + 1);
+    });
+    r.set("filter_once_forms", json!(oall.iter().map(|f| f.name).collect::<Vec<_>>()));
+    r.set("filter_once_sites_exit_paths_filters_runtimes", json!(ojobs.len()));
 
     std::process::exit(r.finish());
 }
